@@ -605,6 +605,11 @@ def get_attr(self, st, base, attr, node, default=KeyError):
         o = st.obj(base)
         if attr in o.fields:
             v = o.fields[attr]
+            if isinstance(v, Top) and v.domain is not None:
+                # finite-domain unknown: decide it at the first read (no stale aliases)
+                if v.origin is None:
+                    v = Top(v.tag, v.input, v.domain, ("field", base.oid, attr), v.truth)
+                return [(s2, "val", c) for (s2, c) in self.concretize(st, v, node)]
             return [(st, "val", v)]
         if o.kind in ("list", "dict", "set"):
             return [(st, "val", BoundMeth(base, None, attr))]
@@ -636,8 +641,12 @@ def get_attr(self, st, base, attr, node, default=KeyError):
         if o.open:
             dom = o.field_domains.get(attr)
             tag = ("bool:" if dom == "bool" else "") + "%s.%s" % (o.label or o.clsname() or "obj", attr)
-            v = Top(tag, True, None if dom in (None, "bool") else dom, ("field", base.oid, attr))
+            if dom == "bool":
+                dom = (False, True)
+            v = Top(tag, True, dom, ("field", base.oid, attr))
             o.fields[attr] = v
+            if dom is not None:
+                return [(s2, "val", c) for (s2, c) in self.concretize(st, v, node)]
             return [(st, "val", v)]
         # a stubbed method name on a class-less object?
         if (o.clsname() or "") + "." + attr in self.stubs:
